@@ -43,21 +43,27 @@ BcForms == {"func", "array", "array-permuted"}
 (* prescribed value is imposed through a multiplier row instead.  The tie added here is satisfied by the linear field itself, *)
 (* so the expectations are unchanged: the path is an implementation choice the result may not depend on.                      *)
 Paths == {"elimination", "lagrange"}
+(* unit of length the coordinates are written in, as a power of ten: the same body described in metres, in tenths of a        *)
+(* millimetre or in tens of kilometres.  A linear field has the same gradient in every unit, so strain and stress are        *)
+(* unchanged and the measure scales by 10^(dim * unit): nothing in the pipeline may compare a length, an area or a Jacobian  *)
+(* with an absolute threshold.  (TLC checks the scaling law of the measure on the small factors 2 and 1/2; the harness       *)
+(* applies the power of ten, which 32-bit rationals cannot hold.)                                                            *)
+Units == {0, -4, 4}
 
 Configs ==
-         {[phys |-> "elastic", dim |-> 2, elem |-> e, law |-> l, ps |-> ps, mesh |-> mk, map |-> mp, field |-> f, bc |-> b, path |-> pa] :
-              e \in Elems2D, l \in Laws, ps \in BOOLEAN, mk \in MeshKinds, mp \in Maps, f \in DOMAIN Fields2, b \in BcForms, pa \in Paths}
-    \cup {[phys |-> "elastic", dim |-> 3, elem |-> e, law |-> l, ps |-> FALSE, mesh |-> mk, map |-> mp, field |-> f, bc |-> b, path |-> pa] :
-              e \in Elems3D, l \in Laws, mk \in MeshKinds, mp \in Maps, f \in DOMAIN Fields3, b \in BcForms, pa \in Paths}
-    \cup {[phys |-> "thermal", dim |-> d, elem |-> e, law |-> "k", ps |-> FALSE, mesh |-> mk, map |-> mp, field |-> f, bc |-> b, path |-> pa] :
-              d \in {2, 3}, e \in Elems2D \cup Elems3D, mk \in MeshKinds, mp \in Maps, f \in {"g1", "g2"}, b \in BcForms, pa \in Paths}
+         {[phys |-> "elastic", dim |-> 2, elem |-> e, law |-> l, ps |-> ps, mesh |-> mk, map |-> mp, field |-> f, bc |-> b, path |-> pa, unit |-> un] :
+              e \in Elems2D, l \in Laws, ps \in BOOLEAN, mk \in MeshKinds, mp \in Maps, f \in DOMAIN Fields2, b \in BcForms, pa \in Paths, un \in Units}
+    \cup {[phys |-> "elastic", dim |-> 3, elem |-> e, law |-> l, ps |-> FALSE, mesh |-> mk, map |-> mp, field |-> f, bc |-> b, path |-> pa, unit |-> un] :
+              e \in Elems3D, l \in Laws, mk \in MeshKinds, mp \in Maps, f \in DOMAIN Fields3, b \in BcForms, pa \in Paths, un \in Units}
+    \cup {[phys |-> "thermal", dim |-> d, elem |-> e, law |-> "k", ps |-> FALSE, mesh |-> mk, map |-> mp, field |-> f, bc |-> b, path |-> pa, unit |-> un] :
+              d \in {2, 3}, e \in Elems2D \cup Elems3D, mk \in MeshKinds, mp \in Maps, f \in {"g1", "g2"}, b \in BcForms, pa \in Paths, un \in Units}
 
 (* beams: a straight member of length 3 with a 1/2 x 1/4 rectangular section, E = 10, inclined in 2-D / 3-D.     *)
 (* constant axial strain e0 -> N = E A e0 ;  constant curvature kappa (no shear) -> Mz = E Iz kappa               *)
 BeamE == RI(10)   BeamA == R(1, 8)   BeamIz == R(1, 1536)      \* b h^3 / 12 with b = 1/2 (along z), h = 1/4 (along y)
 (* the member is one beam (elimination) or two collinear beams welded at mid-length (Lagrange path); the axial field carries  *)
 (* a rigid offset so that every prescribed value is non-zero                                                                  *)
-BeamConfigs == {[phys |-> "beam", dim |-> d, elem |-> e, law |-> th, ps |-> FALSE, mesh |-> "unstructured", map |-> "id", field |-> f, bc |-> "func", path |-> pa] :
+BeamConfigs == {[phys |-> "beam", dim |-> d, elem |-> e, law |-> th, ps |-> FALSE, mesh |-> "unstructured", map |-> "id", field |-> f, bc |-> "func", path |-> pa, unit |-> 0] :
                    d \in {1, 2, 3}, e \in Elems1D, th \in {"EB", "Timo"}, f \in {"axial", "curvature"}, pa \in Paths}
 BeamValid(c) == /\ (c.field = "curvature") => c.dim >= 2
                 /\ (c.field = "curvature" /\ c.law = "Timo") => c.elem # "SEG2"   \* a linear deflection cannot carry a constant curvature
@@ -68,7 +74,14 @@ Valid(c) ==
     /\ c.dim = 3 => c.elem \in Elems3D
     /\ (c.bc # "func") => (c.mesh = "unstructured" /\ c.map = "id" /\ c.law \in {"iso", "k"})       \* the form of the boundary data is independent of law, mesh kind and map
     /\ (c.path = "lagrange") => (c.bc = "func" /\ c.mesh = "unstructured" /\ c.law \in {"iso", "k"} /\ c.map \in {"id", "shear"})    \* the solver path is independent of the rest
+    /\ (c.unit # 0) => (c.path = "elimination" /\ c.bc = "func" /\ c.mesh = "unstructured" /\ c.law \in {"iso", "k"} /\ c.map \in {"id", "shear"} /\ c.field \in {"mix", "g2"})   \* the unit is independent of the rest
     /\ (c.mesh = "mixed") => c.elem \in {"QUAD4", "PRISM6"}        \* mixed main-dimension types come from partial recombination / prisms carry both boundary types
+
+(* scaling law of the measure, on exact factors: Measure(d, k A) = k^d Measure(d, A) *)
+ScaleM(d, k, A) == [r \in 1..d |-> [cc \in 1..d |-> Mul(k, A[r][cc])]]
+RECURSIVE PowR(_, _)
+PowR(k, n) == IF n = 0 THEN One ELSE Mul(k, PowR(k, n - 1))
+MeasureScales(d, A) == \A k \in {Two, Half} : Measure(d, ScaleM(d, k, A)) = Mul(PowR(k, d), Measure(d, A))
 
 MapOf(c, Maps2, Maps3) == IF c.dim = 2 THEN Maps2[c.map] ELSE Maps3[c.map]
 =============================================================================
